@@ -9,6 +9,7 @@ from pyvc.sym import *
 from pyvc.arrays import as_array, Dim
 
 PATH = 'pero_ocr/layout_engines/layout_helpers.py'
+LOCK_EXTRA = [(PATH, 'assign_lines_to_regions')]
 
 
 def reports(root):
